@@ -100,8 +100,20 @@ def run(tier, seed, t0):
         mc = [f.result() for f in mcf]
     finally:
         ex.shutdown(wait=True)
-    v = vlib.Verdict(PROP)
+    v = vlib.Verdict(PROP, own_kinds=("backlog-midframe", "pubflags-pressure"))
     v.absorb(bad)
+    # stalls with heartbeats negotiated (a stall longer than the interval must not end the connection: the
+    # server keeps sending nothing but the client's own tx timer fires with data queued), and publishers that
+    # outrun a slow transport - end-to-end sessions against the connection-level specification
+    import scenarios
+    vlib.build_harness()
+    hs = [x for x in scenarios.generate("midframe_close", 100 if tier == "quick" else 600, seed)
+          if x["cfg"].get("heartbeat")]
+    hs += scenarios.generate("pressure", 40 if tier == "quick" else 600, seed)
+    hfiles, hsumm = vlib.run_sessions(PROP + "-sess", hs, tier, hang_ms=hang)
+    hconsumed, hbad = vlib.validate_traces("ConnTrace", "ConnTrace.cfg", hfiles, timeout=1800, xmx="4g")
+    v.absorb(hbad)
+    consumed += hconsumed
     vlib.write_evidence(
         PROP, tier, seed, t0, mc, traces_validated=summ["evaluations"],
         evaluations=summ["evaluations"], distinct=st["distinct"],
@@ -144,6 +156,10 @@ def run(tier, seed, t0):
 
 
 def replay(path):
+    head = open(path).read(6000)
+    if "backlog-midframe" in head or "pubflags-pressure" in head:
+        from checks import _sess
+        return _sess.replay(path)
     c, bad = vlib.validate_traces(*TRACE, [os.path.abspath(path)])
     for b in bad:
         print("replay: check %s fails at record %d" % (b["label"], b["line"]))
